@@ -485,6 +485,17 @@ func FixedCorpus() []*Unit {
 		sd := sc.Nested("Deeper").Nested("Leaf")
 		sd.R("set", 1, S(String))
 		sd.Map("clear", 2, Int32, M("verif.names.Scope.Entry"))
+		// the name a reserved field is renamed to (and its getter) is taken already
+		rc := f.Msg("RenameClash")
+		rc.F("type", 1, S(String))
+		rc.F("get_type", 2, S(String))
+		rc.F("range", 3, S(Int32))
+		rc.F("get_range", 4, S(Int32))
+		rc2 := f.Msg("RenameClashOneof")
+		rc2.F("type", 1, S(String))
+		rco := rc2.Oneof("type_")
+		rc2.O(rco, "a", 2, S(Int64))
+		rc2.O(rco, "b", 3, M("verif.names.Methods"))
 		m = f.Msg("MethodsMixed")
 		m.R("get", 1, S(Int32))
 		m.Map("set", 2, String, S(String))
@@ -637,6 +648,22 @@ func FixedCorpus() []*Unit {
 		out = append(out, ue)
 		un, _ := unit("emptyfile", "file that declares nothing at all")
 		out = append(out, un)
+	}
+
+	// ---- shadow: a dependency whose Go package is called like a local variable of
+	// the generated methods ("options"): the import is shadowed where the foreign
+	// type is mentioned (known finding KF-C12-2; witness unit shadow_user)
+	{
+		fo := NewFile("verif/shadow/options.proto", "verif.shadow", GoRoot+"shadow/options")
+		om := fo.Msg("Opt")
+		om.F("v", 1, S(Int32))
+		out = append(out, &Unit{Name: "shadow/options", File: fo, Label: []string{"Go package named options (imported)"}})
+		fu := NewFile("verif/shadow_user.proto", "verif.shadow_user", GoRoot+"shadow_user", "verif/shadow/options.proto")
+		um := fu.Msg("Uses")
+		um.F("opt", 1, M("verif.shadow.Opt"))
+		um.R("opts", 2, M("verif.shadow.Opt"))
+		um.Map("by_name", 3, String, M("verif.shadow.Opt"))
+		out = append(out, &Unit{Name: "shadow_user", File: fu, Label: []string{"message fields whose type comes from a Go package named options"}})
 	}
 
 	// ---- dashpath: directory and file names with dashes (identifiers derived from
